@@ -281,7 +281,14 @@ func rgGen(seed int64, n int, args []string, out *json.Encoder) {
 			}
 			return p
 		}
-		if rng.Intn(6) == 0 {
+		if pat := rng.Intn(6); pat == 1 {
+			// a kept Combo value declared in one scope and given a method inside a group opened later: the route is
+			// registered with the groups open at the CALL
+			prog = append(prog, rgIns{Op: "cdecl", Cid: 1, Path: "/mm", Hs: hs(rng.Intn(2))},
+				rgIns{Op: "group", Path: []string{"/g", "/h", ""}[rng.Intn(3)], Hs: hs(1)},
+				rgIns{Op: "ccall", Cid: 1, M: []string{"POST", "PUT", "GET"}[rng.Intn(3)], Hs: hs(1)}, rgIns{Op: "end"})
+			cdecls = append(cdecls, 1)
+		} else if pat == 0 {
 			// a kept Combo value whose GET is added while AutoHead is in one state and whose HEAD is added after it was
 			// switched: what counts for a registration is the state at the time of THAT call (flat list: Get; AutoHead; Head)
 			first := rng.Intn(2) == 0
